@@ -46,11 +46,11 @@ def corpus():
         "4 c. k. v|sc 0 1;sk 1 2;rg;ap 1;pv 3;sl 1 0 1 0;sk 1 0;sc 0 0;rm;pv 1",
         "4 k. v|sk 0 1;rg;ap 0;sk 0 1",
         "0 k. v|sk 0 1;rg;ap 0;sk 0 1;rm;ap 0",
-        "0 c. b. v|sc 0 1;sb 1 0 1;rg;du 1 0 2;dd 1 1;dc 1;sb 1 5;rm",
-        "4 b: c: x|rg;sb 0 1 2;sc 1 1;sc 2 1;du 0 1;px 3;px 4;px 5;dd 0 2;rm;rg",
+        "0 c. b. v|sc 0 1;sb 1 0 1;rg;ds 1 0;ds 1 2;dd 1 1;dc 1;sb 1 5;rm",
+        "4 b: c: x|rg;sb 0 1 2;sc 1 1;sc 2 1;ds 0 1;px 3;px 4;px 5;dd 0 2;rm;rg",
         "3 c: c. v|rg;sc 0 1;sc 1 1;sc 0 1;pv 2;sc 3 1;sc 1 1;rm",
         "4 k. k. v|sk 0 2;sk 1 2;rg;sl 0 0 1 1;in 0 1;dl 0 0;cl 1;cl 0",
-        "4 b. v|rg;du 0 1;du 0 1 2;dd 0 7;sl 0 3 1 1;sc 9 1;dc 0;dc 0",
+        "4 b. v|rg;ds 0 1;ds 0 1;ds 0 2;dd 0 7;sl 0 3 1 1;sc 9 1;dc 0;dc 0",
     ]
 
 
